@@ -577,6 +577,11 @@ def r9_runtime_metadata(ctx, facts, only=None):
             parts[d["name"]] = i
     rs = [c for c in f.calls(r"::try_resize$|::resize$") if any(x["k"] == "MemberExpr" and x.get("mname") == "formatted_msg" for x in walk(call_obj(c)))]
     msg_v = [vid for vid, d in f.var_decls().items() if d.get("name") == "message"]
+    subs_msg = [c for c in walk(parts.get("message") or {}) if is_call(c, r"basic_string_view<.*>::substr$")]
+    if len(parts) != 4 or not subs_msg:
+        raise AnalysisBroken("_apply_runtime_metadata: the cut of the formatted text into message / file / line / function has a shape no "
+                             "accepted idiom covers (four named views, the message a substr of the formatted text): whether another way of "
+                             "cutting — and what it does when a separator is missing — is right is not decided")
     ok_d = len(parts) == 4 and bool(rs) and bool(msg_v) and all(any(is_call(x, r"::(size|length)$") and var_ref(call_obj(x)) == msg_v[0] for x in walk(c["args"][0])) for c in rs) and \
         const_val([c for c in walk(parts["message"]) if is_call(c, r"basic_string_view<.*>::substr$")][0]["args"][0]) == 0
     ctx.ob("C12.R9d", "_apply_runtime_metadata:message-part-kept", ok_d,
